@@ -288,7 +288,7 @@ func factsClient(p *pkg, o *out) {
 		"dispatch", "Handle", "HandleBG", "HandleFunc", "handle", "LogPanic", "Connected", "setConnected"} {
 		o.shapeDef(p, "Conn", m)
 	}
-	for _, m := range []string{"Add", "Has", "Intersect", "Slice", "Size"} {
+	for _, m := range []string{"Add", "Clear", "Has", "Intersect", "Slice", "Size"} {
 		o.shapeDef(p, "capSet", m)
 	}
 	for _, m := range []string{"add", "remove", "getHandlers", "dispatch"} {
